@@ -24,21 +24,33 @@ from vlib.core import (enc_csr, enc_list, enc_listlist, enc_bool, enc_ratlist, d
 TOL = '1/1000000000'          # absolute tolerance handed to the Lean spec predicates for float outputs (1e-9)
 TOL_F = 1e-9
 
-RULE = ('label vectors: exhaustive over {0,1,2}^n n<=5 (reindex_labels, np.unique) + random vectors with gaps, '
-        'negatives, ties, up to 60 entries (numpy argsort is not stable beyond 16); graphs: exhaustive undirected '
-        'n<=3 with self-loops (thorough: n=4), sampled digraphs n<=4, biadjacency up to 3x3, structured random '
-        'graphs n<=14 (blocks, paths, stars, cliques, two components, isolated nodes, self-loops, sinks) with '
-        'unit / integer / dyadic / (a few) arbitrary float weights x Louvain, Leiden, PropagationClustering, KCenters '
-        'x (modularity, resolution, shuffle_nodes, sort_clusters, return_probs, return_aggregate, n_aggregations, '
-        'node_order, center_position, force_bipartite); a case is non-trivial when the fitted clustering has at '
-        'least 2 clusters or (label-vector cases) at least 2 distinct labels; distinct = distinct (entry, input, options, output kind)')
-ASSUMPTIONS = ['np.argsort returns a sorting permutation (label vectors compared as partition + size profile when '
-               'cluster sizes tie)',
+RULE = ('label vectors: all of {0,1,2}^n for n<=5 in the thorough tier (quick: the first 40 and 120 sampled) + random vectors '
+        'with gaps, negatives and tied sizes, up to 120 entries and up to 40 distinct labels (reindex_labels, np.unique, '
+        'get_membership, contract of np.argsort); graphs: undirected with self-loops: all on 2 nodes, 20 sampled on 3 nodes '
+        '(thorough: all on <= 3 nodes, 300 sampled on 4), digraphs on 3-4 nodes drawn at random, biadjacency shapes up to '
+        '4x2 / 3x3 sampled + random up to 7x7, structured random graphs n<=14 (blocks, paths, stars, cliques, two '
+        'components, isolated nodes, self-loops, sinks), graphs of 40-150 nodes made of 9-75 equal-size communities '
+        '(labels and pipeline lines only), unit / integer / dyadic / a few arbitrary float weights, bool / int dtype, '
+        'unsorted indices, csc / coo / lil / dense containers, refused inputs (empty, all stored entries zero, negative '
+        'degrees, unknown modularity, KCenters argument checks, directed on a non-square input) x Louvain, Leiden, '
+        'PropagationClustering, KCenters x (modularity, resolution, shuffle_nodes, sort_clusters, return_probs, '
+        'return_aggregate, n_aggregations, tol_aggregation >= 0, node_order, center_position, force_bipartite, directed, '
+        'n_init, max_iter); nothing is exhaustive beyond the sizes stated; a case is non-trivial when the fitted '
+        'clustering has at least 2 clusters or (label-vector cases) at least 2 distinct labels; distinct = distinct '
+        '(entry, input, options, output kind)')
+ASSUMPTIONS = ['np.argsort returns a sorting permutation (checked by contract_argsort on the keys of the label-vector cases; '
+               'label vectors produced with sort_clusters are compared as partition + size profile, which loses nothing: '
+               'theorem sorted_clusterings_same_profile)',
                'np.unique is the sorted-distinct/inverse/counts function of the model (checked by run lines)',
-               'scipy sparse products / normalisation are exact on integer and dyadic weights; other float weights '
-               'are compared within 1e-9',
-               'the Louvain/Leiden kernels, the propagation sweeps, PageRank and np.random are parameters of the '
-               'model (their outputs are recorded and replayed), they belong to C06/C13/C04',
+               'matrices (probs_, aggregate_) are compared within 1e-9*(1+|x|), whatever the weights',
+               'the Louvain/Leiden kernels, the propagation sweeps, the PageRank scores and np.random are parameters of '
+               'the model (their outputs are recorded and replayed), they belong to C06/C13/C04; assumed of them and '
+               'evaluated by contract lines on every run: one label per node, refined clusters inside coarse clusters, '
+               'no merge => stop flag (Louvain, tol_aggregation >= 0), a round without stop flag shrinks the graph '
+               '(Leiden), one row of scores per node',
+               'tol_aggregation >= 0 (a negative tolerance makes the real loop non-terminating: outside the options drawn)',
+               'KCenters is run on non-negative weights with positive total only (PageRank refuses other inputs inside '
+               'the part that is a parameter of the model)',
                'a node "without outgoing edge" is read as a node of zero out-weight (explicit zeros count as no edge)']
 
 
@@ -758,6 +770,14 @@ def estimator_cases(ctx, name, b, reps=1, kcenters=True):
         out += louvain_cases(ctx, 'Leiden', b, louvain_params(rng), fb, cont())
         if rng.random() < 0.85:
             out += propagation_cases(ctx, b, prop_params(rng), rng.randrange(10 ** 6), cont())
+    if b.dtype != np.float64:
+        # bool / int input: the aggregate alone (no cast made for the probabilities) must still be sums of weights
+        p = louvain_params(rng)
+        p.update({'return_probs': False, 'return_aggregate': True})
+        out += louvain_cases(ctx, rng.choice(['Louvain', 'Leiden']), b, p, False)
+        pp = prop_params(rng)
+        pp.update({'return_probs': False, 'return_aggregate': True})
+        out += propagation_cases(ctx, b, pp, rng.randrange(10 ** 6))
     if kcenters:
         fb = square and rng.random() < 0.3
         bip = fb or not square
